@@ -31,11 +31,13 @@ RULE = ("case = one column (repetition) of an evaluate() result for (solver, gen
         "game, row t+1 == reference gap after revealing actions[:t+1]; ids explorable and distinct; zero padding only "
         "after a legitimate done; hidden games of different tasks pairwise distinct (continuous generators); for one "
         "seed, hidden games and both matrices identical for every worker count. Distinct = hash(hidden game, "
-        "actions, config); non-trivial = at least 2 steps and a non-constant gap curve.")
+        "actions, config); non-trivial = at least 2 steps and a non-constant gap curve. Additionally the REAL command line "
+        "(python -m incomplete_cooperative ... solve, forkserver start method, nothing patched) runs in fresh interpreters for "
+        "--parallel-environments 1/2/3 (thorough: ../5/8) with one seed: the saved matrices must be identical.")
 SHARDS = {"quick": 4, "thorough": 16}
 BUDGET = {"quick": 50, "thorough": 420}
 REQUIRED = ["evaluate_calls", "columns_replayed", "worker_events", "cross_process_comparisons", "multi_worker_calls",
-            "independence_checks", "cli_solve_runs"]
+            "independence_checks", "cli_solve_runs", "cli_cross_process_comparisons"]
 
 CONTINUOUS = ["noisy_factory", "noisy_factory_square", "noisy_factory_fixed", "xos", "xos3", "xs", "oxs"]
 DISCRETE = ["factory", "factory_cheerleader_next", "graph_cycle", "k_budget_generator", "covg_fn_generator", "graph_random"]
@@ -280,10 +282,70 @@ def cli_solve(ctx, cfg) -> None:
     ctx.count("cli_solve_runs")
 
 
+def cli_differential(ctx, cfg) -> None:
+    """The real command line (`python -m incomplete_cooperative ... solve`, forkserver start method, nothing patched) in
+    fresh interpreters for several --parallel-environments values: for one seed the saved matrices must be identical."""
+    import shutil
+    import subprocess
+    import tempfile
+    base = tempfile.mkdtemp(prefix="vmon-c12cli-")
+    procs = []
+    try:
+        for p in cfg["processes"]:
+            d = os.path.join(base, f"p{p}")
+            cmd = [venv.PYTHON, "-c", "from incomplete_cooperative.__main__ import run_main; run_main()",
+                   "--number-of-players", str(cfg["n"]), "--game-generator", cfg["generator"], "--game-class", cfg["computer"],
+                   "--gap-function", cfg["gap"], "--seed", str(cfg["seed"]), "--model-dir", d, "--unique-name", "run",
+                   "--parallel-environments", str(p)] + (["--run-steps-limit", str(cfg["budget"])] if cfg["budget"] else []) + \
+                  ["solve", "--solver", cfg["solver"], "--solve-repetitions", str(cfg["repetitions"])]
+            procs.append((p, d, subprocess.Popen(cmd, env=venv.child_env(), cwd=base, stdout=subprocess.DEVNULL, stderr=subprocess.PIPE, text=True)))
+        results = []
+        for p, d, pr in procs:
+            try:
+                _, err = pr.communicate(timeout=600)
+            except subprocess.TimeoutExpired:
+                pr.kill()
+                ctx.count("cli_runs_timed_out")
+                continue
+            f = os.path.join(d, "data.json")
+            if pr.returncode != 0 or not os.path.exists(f):
+                ctx.violation("solve-command-raised", f"command line solve exited {pr.returncode} with --parallel-environments {p}: {err[-300:]}",
+                              dict(cfg, cli=True, processes=[p]))
+                continue
+            run = json.load(open(f))["run"]
+            results.append((p, np.array(run["data"], dtype=float), np.array(run["actions"], dtype=float)))
+            ctx.count("cli_process_runs")
+        n = cfg["n"]
+        explor = set(gen.explorable(n))
+        for p, data, acts in results:
+            for j in range(acts.shape[1]):
+                col = [int(a) for a in acts[:, j] if a != 0]
+                if len(set(col)) != len(col) or any(a not in explor for a in col):
+                    ctx.violation("action-id-invalid", f"command line, --parallel-environments {p}: column {j} actions {acts[:, j].tolist()}",
+                                  dict(cfg, cli=True, processes=[p]))
+        for (p1, d1, a1), (p2, d2, a2) in zip(results, results[1:]):
+            ctx.count("cross_process_comparisons")
+            ctx.count("cli_cross_process_comparisons")
+            if d1.shape != d2.shape or not (np.array_equal(d1, d2) and np.array_equal(a1, a2)):
+                ctx.violation("result-depends-on-process-count", f"command line solve --solver {cfg['solver']} seed {cfg['seed']}: results differ "
+                              f"between --parallel-environments {p1} and {p2} ({cfg['generator']}, n={n}, {cfg['repetitions']} repetitions)",
+                              dict(cfg, cli=True, processes=[p1, p2]))
+        ctx.case(("cli", cfg["seed"], cfg["solver"], cfg["generator"], tuple(cfg["processes"])), True,
+                 sample={"cli": True, "solver": cfg["solver"], "generator": cfg["generator"], "n": n, "seed": cfg["seed"],
+                         "processes": cfg["processes"], "repetitions": cfg["repetitions"]})
+    finally:
+        shutil.rmtree(base, ignore_errors=True)
+
+
 def run(ctx) -> None:
     rng = ctx.rng
     quick = ctx.tier == "quick"
     venv.WORK_DIR.mkdir(parents=True, exist_ok=True)
+    for _ in range(1 if quick else 4):
+        cli_differential(ctx, {"n": rng.choice([3, 4]), "generator": rng.choice(CONTINUOUS), "computer": rng.choice(sut.SA_COMPUTERS),
+                               "gap": rng.choice(list(GAP_FUNCTIONS)), "solver": rng.choice(["greedy", "largest", "greedy_worst"]),
+                               "seed": rng.randint(0, 10**6), "repetitions": rng.choice([5, 7, 12]), "budget": rng.choice([None, 2, 3]),
+                               "processes": [1, 2, 3] if quick else [1, 2, 3, 5, 8]})
     _STATE["log"] = str(venv.WORK_DIR / f"c12-events-{os.getpid()}.jsonl")
     proc_choices = [1, 2, 5] if quick else [1, 2, 3, 4, 5, 8, 16]
     i = 0
@@ -313,7 +375,9 @@ def run(ctx) -> None:
 def replay(ctx, case) -> None:
     venv.WORK_DIR.mkdir(parents=True, exist_ok=True)
     _STATE["log"] = str(venv.WORK_DIR / f"c12-events-{os.getpid()}.jsonl")
-    if case.get("limit") is None:
+    if case.get("cli"):
+        cli_differential(ctx, case)
+    elif case.get("limit") is None:
         cli_solve(ctx, case)
     else:
         run_config(ctx, case)
